@@ -16,6 +16,19 @@
         truncateRecordBatchToTimestamp, scanRecord, readVarint               [pitr_collect, pitr_scan_records]
    pkg/storage/recordbatch.go     NewRecordBatchFromBytes (copy of the bytes)
 
+   Contract of the PITR scanner (collectRecoverableBatches, [pitr_collect]), as coded:
+   frames are walked in order; EVERY length test precedes any field access (body < 12 ->
+   stop; batchLength <= 0 -> stop; frame beyond the body -> error; frame < 61 bytes ->
+   error "record batch too small"; only then are the timestamps read). Per frame:
+   maxTimestamp <= cutoff -> kept whole, continue; firstTimestamp > cutoff -> stop;
+   otherwise records are scanned in order and the prefix before the first record with
+   timestamp > cutoff is kept (0 kept -> stop with nothing; all kept -> whole batch, stop;
+   else the batch is rewritten: batchLength, lastOffsetDelta, maxTimestamp, numRecords, CRC)
+   and the scan stops. For batches with consistent headers (record 0 at firstTimestamp,
+   maxTimestamp = true maximum) the result is therefore: the records of the segment in scan
+   order up to, not including, the first record whose timestamp is > cutoff
+   (harness oracle [pitr-cutoff], cut-offs on every batch/record boundary -1/0/+1 ms).
+
    The model is of the code WITH the proposed fixes (fixes/C34-*.patch, fixes/C07-*.patch);
    the pre-fix behaviour is kept behind the flags of [dcfg]/[c_chk] so that the defects
    stay stated and refuted in props/C34.v and props/C07.v:
